@@ -36,6 +36,10 @@ RULE = (
     "the converter with >= 1 probe located / string with >= 1 XML metacharacter"
 )
 XP = {"a": "/data/a", "b2": "/data/b2"}
+import re as _re
+
+# `indexed-repeat(` … `)` with a line break inside the parentheses (F46)
+RE_IR_MULTILINE = _re.compile(r"indexed-repeat\([^)]*\n[^)]*\)")
 
 
 # ------------------------------------------------------------------ oracle on one form
@@ -127,6 +131,19 @@ def check_form(ctx, form, probes, tag="gen", expect_reject=False, r=None, env_na
                 ctx.fail(Failure("reparse-crash", f"re-parse of the mixed channel failed: {r['msg']}", case, signature=sig))
                 ctx.record({"form": form}, True)
                 return None
+        if not expect_reject and tag in ("gen", "env", "directed") and probes:
+            # user text must not decide whether the form converts: the same form with benign texts
+            ph0 = F.with_cells(form, probes, lambda p: F.placeholder_parts(p["parts"]))
+            r0 = impl.run(ph0)
+            if r0["ok"]:
+                sig = f"text-changes-outcome:{r['class']}:{r.get('site', '')}"
+                if r.get("site") == "survey.py:_is_return_relative_path" and r.get("exc") == "AttributeError" and any(
+                        RE_IR_MULTILINE.search(F.cell_text(p["parts"])) for p in probes):
+                    sig = "text-changes-outcome:indexed-repeat-multiline"
+                ctx.fail(Failure("text-changes-outcome", f"the form is {r['class']} ({r.get('msg')}) although the same form with benign texts converts",
+                                 case, signature=sig))
+                ctx.record({"form": form}, True)
+                return None
         ctx.record({"form": form}, False)
         return None
     tree, err = parse_doc(ctx, r["xform"], "XForm", form)
@@ -159,7 +176,7 @@ def check_form(ctx, form, probes, tag="gen", expect_reject=False, r=None, env_na
             if kind == "attr-dynamic":
                 dynamic.add(p["id"])
                 ctx.count("default:dynamic")
-            if F.ws_norm_attr(got) != F.ws_norm_attr(cell):
+            if F.ws_norm_attr(got) != F.ws_norm_attr(F.expected_attr(p["parts"], XP)):
                 ctx.fail(Failure("not-recovered", f"{p['chan']} (attribute): cell={cell!r} recovered={got!r}", pc,
                                  signature="not-recovered:attr:other"))
             continue
@@ -232,12 +249,23 @@ def impl_channel(kind, tag, s, attrname="v"):
         el = node(tag, s)
     elif kind == "attr":
         el = node(tag, **{attrname: s})
+    elif kind == "attrx":
+        survey, q = Tiny.get()
+        try:
+            v = survey.insert_xpaths(s, q)
+        except PyXFormError as e:
+            return {"err": "pyxform", "msg": str(e)}
+        except Exception as e:  # noqa: BLE001
+            return {"err": "crash", "msg": f"{type(e).__name__}: {e}", "exc": type(e).__name__}
+        el = node(tag, **{attrname: v})
     else:
         survey, q = Tiny.get()
         try:
             text, changed = survey.insert_output_values(s, q)
         except PyXFormError as e:
             return {"err": "pyxform", "msg": str(e)}
+        except Exception as e:  # noqa: BLE001 a crash of the substitution itself
+            return {"err": "crash", "msg": f"{type(e).__name__}: {e}", "exc": type(e).__name__}
         try:
             el = node(tag, text, toParseString=changed)
         except PyXFormError as e:
@@ -260,6 +288,12 @@ def corr_case(ctx, kind, s):
         ctx.record(case, False)
         return
     ctx.count("corr:in_fragment")
+    if i.get("err") == "crash":
+        # oracle, function level: reference substitution crashed on user text (the model has no crash to mirror)
+        sig = "text-changes-outcome:indexed-repeat-multiline" if (i.get("exc") == "AttributeError" and RE_IR_MULTILINE.search(s)) else "channel-crash:other"
+        ctx.fail(Failure("text-changes-outcome", f"reference substitution crashed on {s!r}: {i['msg']}", case, signature=sig))
+        ctx.record(case, True)
+        return
     if "err" in i or m.get("err"):
         # observation level: is there an element at all?  (Which exception class a rejection uses is C17's
         # business; a crash of the re-parse is judged by the oracle just below.)
@@ -386,6 +420,9 @@ def directed(ctx):
                 continue
             one([["t", f"a{c}b"]], chan=chan, expect_reject=True)
     one([["t", "a\x01b "], ["r", "a"], ["t", " c"]], expect_reject=True)
+    # F46: text that mentions indexed-repeat( … ) over several lines next to a reference
+    one([["t", "see indexed-repeat(x,\n"], ["r", "a"], ["t", ") z"]], chan="hint")
+    one([["t", "indexed-repeat(x, y, 1) "], ["r", "a"], ["t", " same line"]], chan="label")
     # a question name with a declared namespace prefix: every channel of that question, 0-2 languages (F41 lives here)
     for langs in ([], ["en"], ["en", "fr"]):
         row = {"type": "text", "name": "ex:q"}
@@ -496,8 +533,8 @@ def explore(ctx, factor, bs):
         form, probes = F.gen_probe_form(rng, langs, p_ref=rng.choice([0.0, 0.35, 0.7]), plain=rng.random() < 0.05)
         check_form(ctx, form, probes)
     for _ in range(n_corr):
-        kind = rng.choice(["text", "attr", "mixed", "mixed"])
-        s = corr_string(rng) if kind == "mixed" else F.adv(rng, 7)
+        kind = rng.choice(["text", "attr", "attrx", "mixed", "mixed"])
+        s = corr_string(rng) if kind in ("mixed", "attrx") else F.adv(rng, 7)
         if rng.random() < 0.03:
             s += rng.choice(["\r", "\r\n", "\t", "\n"]) + F.adv(rng, 2)
         corr_case(ctx, kind, s)
@@ -541,12 +578,11 @@ def replay(ctx, payload, bs):
 
 
 MATCHERS = {
-    # F4 proper (non-XML character written raw -> not well-formed) is fixed by validate_xml_document (4f1a33e):
-    # no matcher, so that it comes back as a VIOLATION.  Still open: the re-parse of the mixed channel runs before that check.
-    "F4-reparse-non-xml-char": lambda f: f.signature == "reparse-crash:nonxml-char",
+    # fixed, hence no matcher (they come back as VIOLATION): F4 (4f1a33e validate_xml_document), F4-reparse-non-xml-char
+    # (9bea19c character check before the re-parse), F41-guidance-prefixed-name (ac4d9ef rpartition in Survey.itext)
     "F15-instance-op-swallow": lambda f: f.signature in ("structure:instance-op-swallow", "not-recovered:instance-op-swallow", "shape:instance-op-swallow"),
     "F39-instance-double-escape": lambda f: f.signature in ("structure:instance-double-escape", "not-recovered:instance-double-escape", "shape:instance-double-escape"),
-    "F41-guidance-prefixed-name": lambda f: f.signature in ("not-recovered:guidance-media-url-prefixed-name", "structure:guidance-media-url-prefixed-name"),
+    "F46-indexed-repeat-multiline-crash": lambda f: f.signature == "text-changes-outcome:indexed-repeat-multiline",
     "F40-instance-hidden-by-quote": lambda f: f.signature in ("structure:instance-hidden-by-quote", "not-recovered:instance-hidden-by-quote", "shape:instance-hidden-by-quote"),
 }
 
